@@ -480,10 +480,15 @@ func Try(fn func()) (panicked string) {
 }
 
 func firstRepoFrame(st string) string {
+	repo := os.Getenv("VERIF_REPO")
+	if repo == "" {
+		repo = "/repo"
+	}
 	lines := strings.Split(st, "\n")
 	for _, l := range lines {
 		l = strings.TrimSpace(l)
-		if strings.HasPrefix(l, "/repo/") && !strings.Contains(l, "/zzverif/") {
+		if strings.HasPrefix(l, repo+"/") && !strings.Contains(l, "/zzverif/") {
+			l = "/repo" + strings.TrimPrefix(l, repo)
 			if i := strings.Index(l, " "); i > 0 {
 				l = l[:i]
 			}
@@ -491,4 +496,182 @@ func firstRepoFrame(st string) string {
 		}
 	}
 	return "?"
+}
+
+// ---- crash-isolated exploration -------------------------------------------------------------
+//
+// Some properties are about panics in goroutines the harness does not own (a transport server's
+// receive loop): those cannot be recovered and kill the process. Isolated runs the cases in
+// worker subprocesses (the same binary re-executed) that journal "case k starts" before each
+// case; when a worker dies the parent records case k as failed with the tail of the worker's
+// stderr and restarts a worker at k+1.
+
+var (
+	fIsoWorker = flag.String("iso-worker", "", "internal: run as isolated worker for the named block")
+	fIsoFrom   = flag.Int("iso-from", 0, "internal")
+	fIsoTo     = flag.Int("iso-to", 0, "internal")
+	fIsoOut    = flag.String("iso-out", "", "internal")
+)
+
+// IsoResult is what one case reports.
+type IsoResult struct {
+	Problems []Violation `json:"problems,omitempty"`
+	Distinct string      `json:"distinct,omitempty"`
+	Sample   any         `json:"sample,omitempty"`
+}
+
+type isoLine struct {
+	I     int        `json:"i"`
+	Start bool       `json:"start,omitempty"`
+	Done  bool       `json:"done,omitempty"`
+	Res   *IsoResult `json:"res,omitempty"`
+}
+
+// Isolated runs runCase(i) for i in [0,n) in crash-isolating worker processes. describe(i)
+// gives the identity of case i for a crash report. In worker mode it never returns.
+func (r *Run) Isolated(name string, n int, describe func(i int) (key string, c any), runCase func(i int) IsoResult) {
+	if *fIsoWorker != "" {
+		if *fIsoWorker != name {
+			return // a different isolated block of the same harness
+		}
+		f, err := os.OpenFile(*fIsoOut, os.O_CREATE|os.O_WRONLY|os.O_APPEND, 0o644)
+		if err != nil {
+			os.Exit(3)
+		}
+		enc := json.NewEncoder(f)
+		for i := *fIsoFrom; i < *fIsoTo && i < n; i++ {
+			enc.Encode(isoLine{I: i, Start: true})
+			res := runCase(i)
+			enc.Encode(isoLine{I: i, Done: true, Res: &res})
+		}
+		f.Close()
+		os.Exit(0)
+	}
+	shards := r.Workers
+	if shards > n {
+		shards = n
+	}
+	if shards == 0 {
+		return
+	}
+	per := (n + shards - 1) / shards
+	var wg sync.WaitGroup
+	for s := 0; s < shards; s++ {
+		from, to := s*per, (s+1)*per
+		if to > n {
+			to = n
+		}
+		if from >= to {
+			continue
+		}
+		wg.Add(1)
+		go func(s, from, to int) {
+			defer wg.Done()
+			for from < to {
+				if r.Expired() {
+					r.Cap(fmt.Sprintf("isolated block %s: budget expired at case %d of shard %d", name, from, s))
+					return
+				}
+				out := filepath.Join(os.Getenv("VERIF_TMP"), fmt.Sprintf("iso-%s-%d-%d.jsonl", name, s, from))
+				os.Remove(out)
+				cmd := exec.Command(os.Args[0], "-tier", r.Tier, "-iso-worker", name, "-iso-from", fmt.Sprint(from), "-iso-to", fmt.Sprint(to), "-iso-out", out, "-workers", "1")
+				var stderr strings.Builder
+				cmd.Stderr = &tailWriter{b: &stderr, max: 6000}
+				cmd.Stdout = nil
+				runErr := cmd.Run()
+				// read the journal
+				last, lastDone := from-1, true
+				if fh, err := os.Open(out); err == nil {
+					sc := bufio.NewScanner(fh)
+					sc.Buffer(make([]byte, 1<<20), 1<<26)
+					for sc.Scan() {
+						var l isoLine
+						if json.Unmarshal(sc.Bytes(), &l) != nil {
+							continue
+						}
+						if l.Start {
+							last, lastDone = l.I, false
+						}
+						if l.Done {
+							lastDone = true
+							r.Eval()
+							if l.Res != nil {
+								for _, p := range l.Res.Problems {
+									r.Violation(p.Key, p.What, p.Case)
+								}
+								if l.Res.Distinct != "" {
+									r.Distinct(l.Res.Distinct)
+								}
+								if l.Res.Sample != nil {
+									r.Sample(l.Res.Sample)
+								}
+							}
+						}
+					}
+					fh.Close()
+					os.Remove(out)
+				}
+				if runErr == nil && lastDone && last == to-1 {
+					return
+				}
+				if !lastDone {
+					// the worker died inside case `last`
+					r.Eval()
+					key, c := describe(last)
+					r.Violation("crash:"+key, "the process died while executing this case: "+crashSummary(stderr.String()), c)
+					from = last + 1
+					continue
+				}
+				if runErr != nil {
+					r.EngineError("isolated worker %s[%d,%d) failed outside a case: %v: %s", name, from, to, runErr, crashSummary(stderr.String()))
+					return
+				}
+				from = last + 1
+			}
+		}(s, from, to)
+	}
+	wg.Wait()
+}
+
+type tailWriter struct {
+	b   *strings.Builder
+	max int
+}
+
+func (t *tailWriter) Write(p []byte) (int, error) {
+	t.b.Write(p)
+	if t.b.Len() > 4*t.max {
+		s := t.b.String()
+		t.b.Reset()
+		t.b.WriteString(s[len(s)-t.max:])
+	}
+	return len(p), nil
+}
+
+// crashSummary extracts the panic line and the first repository frame from a Go crash dump.
+func crashSummary(s string) string {
+	lines := strings.Split(s, "\n")
+	msg, frame := "", ""
+	for i, l := range lines {
+		if msg == "" && (strings.HasPrefix(l, "panic:") || strings.HasPrefix(l, "fatal error:")) {
+			msg = strings.TrimSpace(l)
+			for _, m := range lines[i:] {
+				m = strings.TrimSpace(m)
+				if strings.HasPrefix(m, "/repo/") || (strings.Contains(m, "/") && strings.Contains(m, ".go:") && !strings.Contains(m, "/zzverif/") && !strings.Contains(m, "/src/runtime/") && !strings.Contains(m, "logrus")) {
+					if j := strings.Index(m, " "); j > 0 {
+						m = m[:j]
+					}
+					frame = m
+					break
+				}
+			}
+		}
+	}
+	if msg == "" {
+		if len(s) > 300 {
+			s = s[len(s)-300:]
+		}
+		return "no panic message captured; stderr tail: " + s
+	}
+	return msg + " @ " + frame
 }
